@@ -70,8 +70,9 @@ def concatenate(ragged_arrays: List[RaggedArray], axis: int = 0) -> RaggedArray:
         row_sizes = np.concatenate([ra._shape.lengths for ra in ragged_arrays])
         return ragged_arrays[0].__class__(data, row_sizes)
     elif axis in [-1, 1]:
+        dtype = np.result_type(*(ra.dtype for ra in ragged_arrays))  # rows without elements carry no dtype
         return ragged_arrays[0].__class__([np.concatenate([row for row in rows])
-                                           for rows in zip(*ragged_arrays)])
+                                           for rows in zip(*ragged_arrays)], dtype=dtype)
     else:
         return NotImplemented
 
